@@ -515,6 +515,7 @@ type SpecSet struct {
 	Axioms     []GlobalInv
 	Globals    []GlobalInv
 	EnvAssumes []GlobalInv
+	Sealed     map[string]bool
 	Ifaces     map[string]*IfaceContract
 	Lemmas     []*Lemma
 }
@@ -529,14 +530,14 @@ type Lemma struct {
 }
 
 func NewSpecSet() *SpecSet {
-	return &SpecSet{Contracts: map[string]*Contract{}, Preds: map[string]*PredDef{}, Ghosts: map[string]*GhostFn{}, Ifaces: map[string]*IfaceContract{}}
+	return &SpecSet{Contracts: map[string]*Contract{}, Preds: map[string]*PredDef{}, Ghosts: map[string]*GhostFn{}, Ifaces: map[string]*IfaceContract{}, Sealed: map[string]bool{}}
 }
 
 var clauseKeywords = map[string]bool{
 	"pred": true, "ghost": true, "axiom": true, "func": true, "requires": true, "ensures": true,
 	"modifies": true, "loop": true, "invariant": true, "inline": true, "trusted": true, "bounded": true,
 	"interface": true, "global": true, "assume": true, "lemma": true, "panics": true, "pure": true,
-	"method": true, "end": true, "results": true, "unroll": true, "envassume": true, "noframe": true,
+	"method": true, "end": true, "results": true, "unroll": true, "envassume": true, "noframe": true, "sealed": true,
 }
 
 // ParseContractText parses the //@ lines of a contract file.
@@ -633,6 +634,10 @@ func (ss *SpecSet) ParseContractText(pkgPath, file, text string) error {
 				return err
 			}
 			ss.Globals = append(ss.Globals, GlobalInv{pkgPath, cl})
+			cur, curLoop = nil, nil
+		case "sealed":
+			// closed-world interface: its implementations are exactly the types of the loaded repository packages that implement it
+			ss.Sealed[qualify(pkgPath, rest)] = true
 			cur, curLoop = nil, nil
 		case "envassume":
 			// assumption about start-up configuration (registries, generator functions): assumed, never checked, always listed
